@@ -7,6 +7,7 @@ Stub: the explorers (one per network) over a generated chain database of ref.txm
 file system behind buidl.tx's open().
 """
 import io
+import contextlib
 import json
 from io import BytesIO
 from urllib.error import HTTPError, URLError
@@ -184,6 +185,12 @@ def gen_db(cfg, tier):
         tx = {"version": r.choice([1, 2, 0, 0xFFFFFFFF, 0x7FFFFFFF]), "ins": ins, "outs": outs, "locktime": r.choice([0, 1, 499999999, 500000000, 2**32 - 1, r.getrandbits(32)])}
         canon = all(is_canonical_script(i["script_sig"]) for i in ins) and all(is_canonical_script(o["spk"]) for o in outs)
         txs.append({"tx": tx, "id": tm.txid(tx).hex(), "segwit": segwit, "canonical": canon, "net": r.choice(["mainnet", "mainnet", "testnet", "signet"])})
+    if cfg.get("tpl"):
+        # one funding transaction with an output of every standard template, in a fixed order (spent by 'history' objects)
+        h = r.getrandbits(256).to_bytes(32, "big")
+        outs = [{"amount": 100000 + k, "spk": f(h[: 20 if k < 3 else 32])} for k, f in enumerate([tm.spk_p2pkh, tm.spk_p2sh, tm.spk_p2wpkh, tm.spk_p2wsh, tm.spk_p2tr])]
+        tx = {"version": 2, "ins": [{"txid": r.getrandbits(256).to_bytes(32, "big"), "vout": 0, "script_sig": b"", "sequence": 0xFFFFFFFF, "witness": []}], "outs": outs, "locktime": 0}
+        txs.append({"tx": tx, "id": tm.txid(tx).hex(), "segwit": False, "canonical": True, "net": "mainnet", "tpl": True})
     return txs
 
 
@@ -424,7 +431,10 @@ def build_through_api(mt, segwit):
 
     tx_ins = []
     for i in mt["ins"]:
-        ti = TxIn(i["txid"], i["vout"], Script(script_commands(i["script_sig"])), i["sequence"])
+        if i["script_sig"]:
+            ti = TxIn(i["txid"], i["vout"], Script(script_commands(i["script_sig"])), i["sequence"])
+        else:
+            ti = TxIn(i["txid"], i["vout"], sequence=i["sequence"])  # as API users do: no scriptSig yet
         if segwit:
             ti.witness = Witness(list(i["witness"]))
         tx_ins.append(ti)
@@ -614,6 +624,19 @@ def _execute(plan, w, tr):
             if not segwit:
                 for i_ in model["ins"]:
                     i_["witness"] = []
+            sp = st.get("spend_db")
+            if sp is not None and w.db[-1].get("tpl"):
+                # input 0 spends a standard-template output of the funding transaction the explorer serves
+                fund = w.db[-1]
+                vout = sp["vout"] % 5
+                b = bytes([sp["b"] % 256])
+                model["ins"][0].update(txid=bytes.fromhex(fund["id"]), vout=vout, script_sig=b"")
+                if segwit:
+                    model["ins"][0]["witness"] = {"key": [b * 64], "key_annex": [b * 64, b"\x50" + b * 3], "script_annex": [b"\x01", b"\x51", b"\xc0" + b * 32, b"\x50\x01"], "two": [b * 71, b"\x02" + b * 32],
+                                                  "script": [b"", b * 71, b"\x51" + b"\x21\x02" + b * 32 + b"\x51\xae"]}[sp["wit"]]
+                else:
+                    model["ins"][0]["script_sig"] = tm.push(b * 71) + tm.push(b"\x02" + b * 32)
+                tr.probe("history_spends_template_" + ["p2pkh", "p2sh", "p2wpkh", "p2wsh", "p2tr"][vout])
             try:
                 obj = build_through_api(model, segwit) if st.get("via_api") else Tx.parse(BytesIO(tm.ser_tx(model)), network="mainnet")
             except SimDeadlock:
@@ -680,9 +703,47 @@ def _execute(plan, w, tr):
                     items = [bytes([e["v"] % 256]) * (e["v"] % 70)]
                     model["ins"][j]["witness"] = items
                     obj.tx_ins[j].witness = _W(list(items))
+                elif k == "script_sig_append":
+                    # in-place assembly of a scriptSig through the public command list
+                    j = e["j"] % len(model["ins"])
+                    data = bytes([e["v"] % 256]) * (1 + e["v"] % 60)
+                    model["ins"][j]["script_sig"] += tm.push(data)
+                    obj.tx_ins[j].script_sig.commands.append(data)
+                elif k == "witness_append" and segwit:
+                    j = e["j"] % len(model["ins"])
+                    data = bytes([e["v"] % 256]) * (e["v"] % 70)
+                    model["ins"][j]["witness"] = list(model["ins"][j]["witness"]) + [data]
+                    obj.tx_ins[j].witness.items.append(data)
+                elif k.startswith("use_"):
+                    # read-only use of the object between edits (whatever it returns or raises): the object must still be the same transaction
+                    j = e["j"] % len(model["ins"])
+                    try:
+                        with contextlib.redirect_stdout(io.StringIO()):
+                            if k == "use_verify":
+                                obj.verify_input(j)
+                            elif k == "use_fee":
+                                obj.fee()
+                            elif k == "use_sighash":
+                                obj.sig_hash(j, 1)
+                            elif k == "use_repr":
+                                repr(obj)
+                            elif k == "use_clone":
+                                c2 = obj.clone()
+                                if c2.tx_outs:
+                                    c2.tx_outs[0].amount = 1
+                                if c2.tx_ins:
+                                    c2.tx_ins[0].prev_index = 7
+                                    if segwit:
+                                        c2.tx_ins[0].witness.items.append(b"\x01")
+                        tr.probe(k + "_returned")
+                    except SimDeadlock:
+                        raise
+                    except Exception as ex:
+                        tr.probe(k + "_raised")
+                    w.next_resp = None
                 else:
                     continue
-                tr.fault("edit_" + k)
+                tr.fault(("edit_" if not k.startswith("use_") else "") + k)
                 tr.ev("client", "edit", k)
                 check(k)
         elif op == "broadcast":
@@ -731,6 +792,8 @@ def _execute(plan, w, tr):
 
 # ------------------------------------------------------------------------------------------------
 
+EDIT_KINDS = ["out_amount", "out_remove", "out_append", "locktime", "version", "sequence", "outpoint", "script_sig", "witness", "witness", "script_sig_append", "script_sig_append", "witness_append",
+              "use_verify", "use_verify", "use_fee", "use_sighash", "use_repr", "use_clone"]
 RESP_KINDS = ["bitflip", "bitflip", "wrong_tx", "tweaked_field", "truncate", "garbage_hex", "not_hex", "empty", "trailing", "whitespace_upper", "witness_stripped", "witness_malleated", "noncanonical_reencode",
               "http_error", "timeout", "urlerror", "slow"]
 
@@ -741,7 +804,7 @@ def gen_resp(ch, enabled):
 
 
 def generate(ch, tier, prop):
-    db = {"seed": ch.randrange(1 << 30), "n": ch.randrange(2, 8), "noncanonical": ch.chance(0.3), "huge": ch.chance(0.03), "big": ch.chance(0.03 if tier == "quick" else 0.1)}
+    db = {"seed": ch.randrange(1 << 30), "n": ch.randrange(2, 8), "noncanonical": ch.chance(0.3), "huge": ch.chance(0.03), "big": ch.chance(0.03 if tier == "quick" else 0.1), "tpl": ch.chance(0.6)}
     fault_free = ch.chance(0.25)
     enabled = [] if fault_free else [k for k in RESP_KINDS if ch.chance(0.45)]
     disk = (not fault_free) and ch.chance(0.4)
@@ -776,9 +839,12 @@ def generate(ch, tier, prop):
         elif r < 0.93:
             steps.append({"op": "broadcast", "tx": ch.randrange(8), "net": ch.choice(["mainnet", "testnet", "signet"])})
         elif r < 0.97:
-            steps.append({"op": "history", "tx": ch.randrange(8), "via_api": ch.chance(0.5),
-                          "edits": [{"e": ch.choice(["out_amount", "out_remove", "out_append", "locktime", "version", "sequence", "outpoint", "script_sig", "witness", "witness"]), "j": ch.randrange(8), "v": ch.choice([0, 1, 2**32 - 1, ch.getrandbits(40)])}
-                                    for _ in range(ch.randrange(1, 6))]})
+            st = {"op": "history", "tx": ch.randrange(8), "via_api": ch.chance(0.5),
+                  "edits": [{"e": ch.choice(EDIT_KINDS), "j": ch.randrange(8) if ch.chance(0.7) else 0, "v": ch.choice([0, 1, 2**32 - 1, ch.getrandbits(40)])}
+                            for _ in range(ch.randrange(1, 7))]}
+            if ch.chance(0.5):
+                st["spend_db"] = {"vout": ch.randrange(5), "b": ch.randrange(256), "wit": ch.choice(["key", "key_annex", "key_annex", "script_annex", "two", "script"])}
+            steps.append(st)
         else:
             steps.append({"op": "load"})
     return {"db": db, "steps": steps}
@@ -802,8 +868,30 @@ def enumerate_plans(tier, prop, seed):
         yield {"db": base_db, "steps": [{"op": "fetch", "tx": 0}, {"op": "fetch", "tx": 1}, {"op": "dump", "torn": cut}, {"op": "restart"}, {"op": "load"}, {"op": "fetch", "tx": 0}], "enum": "torn"}
 
 
+    # object histories: every template output x witness shape x read-only use, parsed and API-built
+    tdb = {"seed": 777 + seed, "n": 3, "tpl": True}
+    for vout in range(5):
+        for wit in ("key", "key_annex", "script_annex", "two", "script"):
+            for use in ("use_verify", "use_fee", "use_sighash", "use_repr", "use_clone"):
+                for via_api in (False, True):
+                    for k in range(3):
+                        yield {"db": tdb, "steps": [{"op": "history", "tx": k, "via_api": via_api, "spend_db": {"vout": vout, "b": 7 + vout, "wit": wit}, "edits": [{"e": use, "j": 0, "v": 1}, {"e": "locktime", "j": 0, "v": 5}, {"e": use, "j": 0, "v": 1}]}],
+                               "enum": "uses"}
+    # in-place assembly on one object, then another object built through the API (and broadcast)
+    for k in range(3):
+        for k2 in range(3):
+            for ed in ("script_sig_append", "witness_append"):
+                yield {"db": tdb, "steps": [{"op": "history", "tx": k, "via_api": True, "spend_db": {"vout": 0, "b": 9, "wit": "key"}, "edits": [{"e": ed, "j": 0, "v": 33}, {"e": ed, "j": 1, "v": 34}]},
+                                            {"op": "broadcast", "tx": k2, "net": "mainnet"}, {"op": "history", "tx": k2, "via_api": True, "spend_db": {"vout": 2, "b": 9, "wit": "key"}, "edits": [{"e": "locktime", "j": 0, "v": 1}]}], "enum": "inplace"}
+
+
 def shrink(plan):
     for i, st in enumerate(plan["steps"]):
+        if st.get("op") == "history" and len(st.get("edits", [])) > 1:
+            for j in range(len(st["edits"])):
+                p = dict(plan, steps=[dict(x) for x in plan["steps"]])
+                p["steps"][i]["edits"] = st["edits"][:j] + st["edits"][j + 1 :]
+                yield p
         if st.get("resp"):
             p = dict(plan, steps=[dict(x) for x in plan["steps"]])
             del p["steps"][i]["resp"]
